@@ -82,13 +82,14 @@ def run_direct_property(prop, eps, sizes, nrandom, want_default, extra_must=None
             # the sampled originals, which compile, are their positive controls
             gates, seen_g = [], set()
             for d in decls:
-                g = gate_fn(d)
-                if g is None:
+                gs = gate_fn(d)
+                if gs is None:
                     continue
-                key = json.dumps([g["ty"], g["san"], g["val"], g["traits"]], sort_keys=True)
-                if key not in seen_g:
-                    seen_g.add(key)
-                    gates.append(g)
+                for g in (gs if isinstance(gs, list) else [gs]):
+                    key = json.dumps([g["ty"], g["san"], g["vmode"], g["val"], g["traits"]], sort_keys=True)
+                    if key not in seen_g:
+                        seen_g.add(key)
+                        gates.append(g)
             if gates:
                 _o, g_rej, g_alive = CV.build_and_run(name + "_gate", gates, lambda d_: [], feats, feats, nshards=2)
                 by_g = {g["id"]: g for g in gates}
